@@ -1586,16 +1586,11 @@ func (r *run) exec1(op Op) {
 				err = fmt.Errorf("incomplete write n=%d", n)
 			}
 		case "Sync":
+			// (the iSCSI frontend looks at the error only: a flush is acknowledged iff err == nil)
 			n, err = c.Sync()
-			if err == nil && n != 0 {
-				err = fmt.Errorf("sync n=%d", n)
-			}
 		case "Unmap":
 			// a range no write id ever uses (last sectors)
 			n, err = c.Unmap(int64(volBlocks*rawfs.SPB-1)*rawfs.SectorSize, rawfs.SectorSize)
-			if err == nil && n != 0 {
-				err = fmt.Errorf("unmap n=%d", n)
-			}
 		}
 		res, et := resOf(err)
 		if err != nil {
@@ -2306,7 +2301,12 @@ func (r *run) generate(n int, profile string) {
 				do(Op{Ev: "Revert", Name: name, F: f})
 			}
 		case k < 90:
-			do(Op{Ev: "SetMode", A: all[rng.Intn(len(all))], Mode: "ERR"})
+			if rng.Intn(5) == 0 {
+				// a mode the controller does not accept from outside (or a case variant of one it does)
+				do(Op{Ev: "SetMode", A: all[rng.Intn(len(all))], Mode: []string{"err", "rw", "Err", "WO", "wo", ""}[rng.Intn(6)]})
+			} else {
+				do(Op{Ev: "SetMode", A: all[rng.Intn(len(all))], Mode: "ERR"})
+			}
 		case k < 95:
 			// a detached replica comes back
 			for _, nm := range r.names {
